@@ -575,7 +575,7 @@ func (it *Interp) setupIntrinsics() {
 	}
 	T["math.Abs"] = func(it *Interp, fn *ssa.Function, a []Value) Value {
 		x := a[0].(*Term)
-		if it.mode == Math && !x.IsConst() {
+		if it.mode == Math && !x.IsConst() && !it.cfg.MinMaxIte {
 			if it.decide(it.tb.Cmp(token.GEQ, x, it.tb.RealC(0), true)) {
 				return x
 			}
